@@ -578,6 +578,8 @@ proof fn theorem_written_roundtrip(d: Seq<(Seq<char>, Seq<(Seq<char>, Val)>)>, n
 }
 // ---- attr(key, value): quoted exactly when the code's predicate attr_quotes holds for some character (generated from the
 // closure in the code); written bare, the value must be plain - that is where the quoting decision matters for C16
+// (unit lfw lets attr() write the quoted form for any value and the plain form only if !attr_quoted_for(v): Quoted(v) is always
+// fine, val_ok(Val::Quoted(_)) == true, and the plain case is the lemma below)
 pub open spec fn attr_val(v: Seq<char>) -> Val { if attr_quoted_for(v) { Val::Quoted(v) } else { Val::Plain(v) } }
 proof fn lemma_attr_val_ok(v: Seq<char>)
     ensures val_ok(attr_val(v)), val_orig(attr_val(v)) == v
